@@ -15,6 +15,7 @@ type pflagIn struct {
 	Flags        []flagSpec `json:"flags"`
 	Interspersed bool       `json:"interspersed"`
 	Args         []string   `json:"args"`
+	Whitelist    bool       `json:"whitelist"` // ParseErrorsWhitelist.UnknownFlags
 }
 
 func runPflagParse(raw json.RawMessage) interface{} {
@@ -23,6 +24,7 @@ func runPflagParse(raw json.RawMessage) interface{} {
 	fs := pflag.NewFlagSet("x", pflag.ContinueOnError)
 	fs.SetOutput(io.Discard)
 	fs.SetInterspersed(in.Interspersed)
+	fs.ParseErrorsWhitelist.UnknownFlags = in.Whitelist
 	for _, f := range in.Flags {
 		switch f.Kind {
 		case "bool":
@@ -35,6 +37,8 @@ func runPflagParse(raw json.RawMessage) interface{} {
 			fs.StringArrayP(f.Name, f.Short, nil, "")
 		case "ipNetSlice":
 			fs.IPNetSliceP(f.Name, f.Short, nil, "")
+		case "boolSlice":
+			fs.BoolSliceP(f.Name, f.Short, nil, "")
 		case "optString":
 			fs.StringP(f.Name, f.Short, "", "")
 			fs.Lookup(f.Name).NoOptDefVal = "dflt"
@@ -69,7 +73,7 @@ func runPflagParse(raw json.RawMessage) interface{} {
 	vals := [][2]string{}
 	fs.Visit(func(f *pflag.Flag) {
 		v := f.Value.String()
-		if t := f.Value.Type(); t == "stringArray" || t == "ipNetSlice" {
+		if t := f.Value.Type(); t == "stringArray" || t == "ipNetSlice" || t == "boolSlice" {
 			v = "*" // only whether the flag was set (the text form goes through a CSV writer)
 		}
 		vals = append(vals, [2]string{f.Name, v})
@@ -97,6 +101,16 @@ func genPflagParse(r *rng, tier string) interface{} {
 		return in
 	}
 	in.Args = genLine(r, one)
+	if r.chance(12) {
+		// unknown flags tolerated: an unknown flag takes the next word along unless it looks like a flag
+		in.Whitelist = true
+		pi := genParseUnknown(r, one)
+		in.Args = pi.Words
+		if r.chance(50) {
+			in.Args = append(in.Args, pick(r, []string{"tail", "-z", "--", "--color", "-", "-zn", "-nz", "--help", "-zh"}))
+		}
+		return in
+	}
 	if r.chance(30) {
 		in.Args = append(in.Args, pick(r, []string{"--", "-", "x", "--unknown", "-z", "--help", "-h", "-=", "--=", "---", "--a=b=c"}))
 	}
